@@ -120,13 +120,14 @@ SETGET = '''
 //@   ensures[error_value] (=> (not (isnil result)) (= result (ite (< (midx{v} abv) 0) (PErr T_ErrInvalidMetric abv) ErrInvalidMetricValue)))
 //@   ensures[err_unknown_metric] (=> (< (midx{v} abv) 0) (and (is-ErrInvalidMetric result) (str= (pabv result) abv)))
 //@   ensures[err_illegal_value] (=> (and (>= (midx{v} abv) 0) (= (vcode{v} (midx{v} abv) value) #xff)) (= result ErrInvalidMetricValue))
-//@   allocs 0
+//@   ensures[no_allocation_known_metric] (=> (>= (midx{v} abv) 0) (= allocs (old allocs)))
 
 //@ func ({T}).Get({r}, abv)
 //@   requires[wf] (wf{v} {r})
 //@   ensures[known_metric_value] (=> (>= (midx{v} abv) 0) (and (isnil result.1) (= (vcode{v} (midx{v} abv) result.0) (field{v} {r} (midx{v} abv))) (not (= (vcode{v} (midx{v} abv) result.0) #xff))))
 //@   ensures[nonempty] (=> (>= (midx{v} abv) 0) (> (len result.0) 0))
 //@   ensures[unknown_metric] (=> (< (midx{v} abv) 0) (and (is-ErrInvalidMetric result.1) (str= (pabv result.1) abv) (= (len result.0) 0)))
+//@   ensures[no_allocation_known_metric] (=> (>= (midx{v} abv) 0) (= allocs (old allocs)))
 
 //@ func validate(value, enabled)
 //@   requires[short_list] (<= (len enabled) 255)
@@ -169,6 +170,7 @@ KVM = '''
 //@   ensures[duplicate] (=> (and (>= (midx{v} abv) 0) (kvmflag (old kvm) (midx{v} abv))) (and (is-ErrDefinedN result) (str= (pabv result) abv) (= kvm (old kvm))))
 //@   ensures[fresh] (=> (and (>= (midx{v} abv) 0) (not (kvmflag (old kvm) (midx{v} abv)))) (and (isnil result) (forall-in (m 0 21) (= (kvmflag kvm m) (or (kvmflag (old kvm) m) (= m (midx{v} abv)))))))
 //@   ensures[seen_array] (and (=> (>= (midx{v} abv) 0) (= (isnil result) (not (select (kvmarr (old kvm)) (midx{v} abv))))) (=> (isnil result) (= (kvmarr kvm) (store (kvmarr (old kvm)) (midx{v} abv) true))) (=> (not (isnil result)) (= kvm (old kvm))))
+//@   ensures[no_allocation_on_success] (=> (isnil result) (= allocs (old allocs)))
 //@   ensures[error_kind] (and (=> (< (midx{v} abv) 0) (= result (PErr T_ErrInvalidMetric abv))) (=> (and (>= (midx{v} abv) 0) (not (isnil result))) (= result (PErr T_ErrDefinedN abv))))
 '''
 
@@ -181,7 +183,7 @@ SPLITCOUPLE = '''
 //@   loop 1 decreases (- (len couple) i)
 //@   ensures[key] (same-str result.0 (elemkey couple))
 //@   ensures[value] (same-str result.1 (elemval couple))
-//@   allocs 0
+//@   ensures[no_allocation] (= allocs (old allocs))
 '''
 
 PARSE3 = '''
@@ -196,6 +198,7 @@ PARSE3 = '''
 //@   loop 1 invariant[nosep] (forall ((p Int)) (! (=> (and (<= (+ (+ vector.off 9) start) p) (< p (+ (+ vector.off 9) i))) (not (= (select vector.arr p) #x2f))) :pattern ((select vector.arr p))))
 //@   loop 1 invariant[fold] (let ((V (substr vector 9 (len vector)))) (= (fold{v} V 0 noneSeen noVals) (fold{v} V start (kvmarr kvm) (valsarr{v} {r}))))
 //@   loop 1 invariant[wf] (wf{v} {r})
+//@   loop 1 invariant[one_allocation_so_far] (= allocs (+ (old allocs) 1))
 //@   loop 1 decreases (- (+ l 2) i)
 //@   lemma[element_end] after splitCouple#1 (let ((V (substr vector 9 (len vector)))) (= (nextsep V start) i))
 //@   assume_def[unfold_fold_at_element] after splitCouple#1 (let ((V (substr vector 9 (len vector)))) (fold{v}_def V start (kvmarr kvm) (valsarr{v} {r})))
@@ -205,7 +208,41 @@ PARSE3 = '''
 //@   ensures[accept_implies_prefix] (=> (isnil result.1) (hasHeader{v} vector))
 //@   ensures[accept_object] (=> (isnil result.1) (and (not (isnil result.0)) (wf{v} (deref result.0)) (forall-in (m 0 21) (= (field{v} (deref result.0) m) (select (p.vals (parseRes{v} vector)) m)))))
 //@   ensures[reject_nil] (=> (not (isnil result.1)) (isnil result.0))
+//@   ensures[allocation_budget] (=> (isnil result.1) (<= allocs (+ (old allocs) 1)))
 '''
+
+def vector_contract(v):
+    T='CVSS'+v; r='cvss'+v
+    n={'30':(8,14),'31':(8,14),'40':(11,21)}[v]
+    chain=''
+    if v=='40':
+        # one link per optional metric, in the order of the if statements (= specification order)
+        for k in range(1,21):
+            chain+='//@   lemma_chain[partial_sum_%d] at l#%d havoc l : (= l (segpos40_%d cvss40))\n' % (k,k,11+k)
+    out=['''
+// ---- Vector / lenVec (C02, C08, C17): the serialiser writes the canonical form in one allocation ----
+
+//@ func lenVec(%s)
+//@   requires[wf] (wf%s %s)
+//@   inline get Get
+@@CHAIN@@//@   ensures[exact] (= result (canonLen%s %s))
+//@   ensures[no_allocation] (= allocs (old allocs))
+
+//@ func (%s).Vector(%s)
+//@   requires[wf] (wf%s %s)
+//@   opt prune_infeasible
+//@   inline mandatory notMandatory get Get
+''' % (r,v,r,v,r,T,r,v,r)]
+    out[0]=out[0].replace('@@CHAIN@@',chain)
+    k=0
+    for i in range(1,n[0]+1):
+        out.append('//@   lemma_chain[prefix_%d] after mandatory#%d havoc b : (canonPrefix%s_%d (bufstr b) %s)\n' % (k,i,v,k,r)); k+=1
+    for i in range(1,n[1]+1):
+        out.append('//@   lemma_chain[prefix_%d] after notMandatory#%d havoc b : (canonPrefix%s_%d (bufstr b) %s)\n' % (k,i,v,k,r)); k+=1
+    out.append('''//@   ensures[canonical] (isCanon%s result %s)
+//@   ensures[one_allocation] (= allocs (+ (old allocs) 1))
+''' % (v,r))
+    return ''.join(out)
 
 RATING = '''
 // ---- Rating (C15) ----
@@ -218,7 +255,7 @@ RATING = '''
 //@   ensures[high]     (=> (= (ratingClass score) 3) (and (isnil result.1) (str= result.0 "HIGH")))
 //@   ensures[critical] (=> (= (ratingClass score) 4) (and (isnil result.1) (str= result.0 "CRITICAL")))
 //@   ensures[out_of_bounds] (=> (= (ratingClass score) (- 1)) (and (= result.1 ErrOutOfBoundsScore) (= (len result.0) 0)))
-//@   allocs 0
+//@   ensures[no_allocation] (= allocs (old allocs))
 '''
 
 NOMEN = '''
@@ -229,7 +266,7 @@ NOMEN = '''
 //@   ensures[bt]  (= (str= result "CVSS-BT")  (and (threatDefined40 cvss40) (not (envDefined40 cvss40))))
 //@   ensures[be]  (= (str= result "CVSS-BE")  (and (not (threatDefined40 cvss40)) (envDefined40 cvss40)))
 //@   ensures[bte] (= (str= result "CVSS-BTE") (and (threatDefined40 cvss40) (envDefined40 cvss40)))
-//@   allocs 0
+//@   ensures[no_allocation] (= allocs (old allocs))
 '''
 
 
@@ -253,6 +290,7 @@ def gen(v):
         parts.append(SPLITCOUPLE)
         parts.append(PARSE3)
     if v != '20':
+        parts.append(vector_contract(v))
         parts.append(RATING)
     if v == '40':
         parts.append(NOMEN)
